@@ -6,7 +6,7 @@ import "fmt"
 
 // VerifCheck validates the structural invariants of the tree (verification
 // hook): every non-root node holds between degree-1 and 2*degree-1 items, the
-// root holds at most 2*degree-1 (and at least one when the tree is not empty),
+// root holds at most 2*degree-1 (an empty root must be a leaf),
 // every node has either no children or one more child than items, all leaves
 // are at the same depth, an in-order walk is strictly increasing, and the
 // recorded length equals the number of items.
@@ -33,8 +33,8 @@ func (t *BTree) VerifCheck() error {
 		if !isRoot && len(n.items) < t.minItems() {
 			return fmt.Errorf("non-root node at depth %d has %d items < min %d", depth, len(n.items), t.minItems())
 		}
-		if isRoot && len(n.items) == 0 {
-			return fmt.Errorf("empty root node kept (length %d)", t.length)
+		if isRoot && len(n.items) == 0 && len(n.children) != 0 {
+			return fmt.Errorf("root without items has %d children", len(n.children))
 		}
 		if len(n.children) != 0 && len(n.children) != len(n.items)+1 {
 			return fmt.Errorf("node at depth %d has %d items and %d children", depth, len(n.items), len(n.children))
